@@ -312,7 +312,7 @@ func pkRenderHash(h *pkNode) string {
 		case "val":
 			fmt.Fprintf(&sb, "%d", e.node.n)
 		case "fn":
-			fmt.Fprintf(&sb, "(fn [a] (+ a %d))", e.node.n)
+			fmt.Fprintf(&sb, "(fn [a] (+ a zqk%d))", e.node.n)
 		case "hash":
 			sb.WriteString(pkRenderHash(e.node))
 		case "pkg":
@@ -323,7 +323,24 @@ func pkRenderHash(h *pkNode) string {
 	return sb.String()
 }
 
-// pkRenderPkg renders (package pkN members... accessors...).  Accessors are
+// pkHashFns: the function values in h (not those of packages stored in it).
+func pkHashFns(h *pkNode) []int {
+	var out []int
+	for _, e := range h.ents {
+		switch e.node.kind {
+		case "fn":
+			out = append(out, e.node.n)
+		case "hash":
+			out = append(out, pkHashFns(e.node)...)
+		}
+	}
+	return out
+}
+
+// pkRenderPkg renders (package pkN members... accessors...).  Every function
+// (member or hash value) adds a private constant zqk<n> of its package to its
+// argument, so every call from outside, through any path and alias, runs code
+// that uses a private member of the package it was defined in.  Accessors are
 // capitalised functions defined in the package body (prefix Zq), also stored
 // in the global registry zqreg so that they can be called without a dot path.
 func pkRenderPkg(n, parent *pkNode, strName bool) string {
@@ -341,8 +358,11 @@ func pkRenderPkg(n, parent *pkNode, strName bool) string {
 		case "val":
 			fmt.Fprintf(&sb, "\n (def %s %d)", e.name, e.node.n)
 		case "fn":
-			fmt.Fprintf(&sb, "\n (defn %s [a] (+ a %d))", e.name, e.node.n)
+			fmt.Fprintf(&sb, "\n (def zqk%d %d) (defn %s [a] (+ a zqk%d))", e.node.n, e.node.n, e.name, e.node.n)
 		case "hash":
+			for _, n := range pkHashFns(e.node) {
+				fmt.Fprintf(&sb, "\n (def zqk%d %d)", n, n)
+			}
 			fmt.Fprintf(&sb, "\n (def %s %s)", e.name, pkRenderHash(e.node))
 		case "pkg":
 			fmt.Fprintf(&sb, "\n (def %s %s)", e.name, pkRenderPkg(e.node, n, false))
